@@ -1,2 +1,224 @@
-(* C17 - placeholder, theorems follow *)
-From Mkdb Require Import Spec.SessionObs.
+(* C17 - Databases are isolated and survive any USE / restart pattern.
+   Statements only; proofs are in Proofs/SessionStore.v (one database) and Proofs/SessionProofs.v
+   (the session), built on the refinement development (Proofs/Refine*.v: `Rep s d`, store s
+   represents specification database d) and on the crash development (Proofs/Crash*.v: `Inv y`,
+   replaying the log on the data file gives the cache).
+
+   Model/Session.v: sess = (dbs : name -> (cache, data file, log), cur : selected name);
+   sess_step runs ONE event: a statement (CREATE DATABASE / USE / SHOW DATABASES / CREATE TABLE /
+   INSERT / UPDATE / DELETE / SELECT), a timer tick of the selected database's flusher, or a
+   restart (clean: Session.Close first; unclean: every cache is lost) which runs recovery on every
+   database. `sess_run init_sess evs` runs ANY finite list of events, RESTARTS INCLUDED.
+
+   The specification state is that of Spec/SessionObs.v sess_spec_ok: `sess_spec_run [] None evs os`
+   = one specification database per created name + the selected name, computed from the events
+   and their observed outcomes only (CREATE DATABASE ok adds []; an acknowledged statement applies
+   TableSpec's spec_exec to the selected database's entry; USE ok selects; restart deselects;
+   everything else changes nothing).
+
+   Theorems (all for event lists of any length over any number of databases):
+   1 C17_errors_change_nothing  CREATE DATABASE / USE returning an error leave the session state equal
+   2 C17_show_lists_created     SHOW DATABASES = sorted lower-cased names of the successful CREATE
+                                DATABASEs; keys pairwise distinct.              NO hypothesis.
+   3 C17_frame                  a statement / tick / USE touches only the selected (and newly selected)
+                                database.                                       NO hypothesis.
+   4 C17_isolation              for every database n: its specification database d_n is exactly
+                                TableSpec.spec_run [] (the statements acknowledged while n was selected),
+                                and the LOGICAL store of n (cache if selected, data file otherwise)
+                                represents d_n (`Rep`), hence every user table of n reads as d_n says
+                                (`table_agrees`) - whatever USE switches, re-USEs, failed USEs, ticks,
+                                clean and unclean restarts happened in between.
+     C17_never_fails            along such a run no event fails or panics (recovery included).
+   Hypotheses of 4 (`sess_hyps`, a boolean evaluated along the run; only DDL/DML statements issued
+   while a database is selected are constrained, through SessionStore.stmt_hyp on the selected cache):
+     (i)   a FAILING statement fails before its first page change (Atomic.fails_early) - exactly the
+           complement of the recorded findings F11a-c, as in C01full / C14 / C02's (H1);
+     (ii)  RefineMain.stmt_ok: CREATE TABLE column names pairwise distinct; literals are Go values;
+     (iii) the data file stays below 2^63 bytes (per statement);
+     (iv)  stmt_moves_okb: C02's (H2) (when an INSERT moves its table's root, the catalog row found by
+           name is the first one holding the old root), as a boolean.
+   C17_hyps_satisfiable: a history with two databases, a duplicate CREATE DATABASE, failed USEs (with
+   and without a selected database), USE switches, a re-USE, a tick, a failing statement, an unclean
+   and a clean restart meets them. C17_full_statement drops the hypotheses; it is false for the code
+   as it is (C17_full_refuted: finding F11a inside one database).
+   Not proved: the lax variant (arbitrary failing statements, as C01_refines_partial_lax): the crash
+   invariant needs (i), so it would hold without restarts only. *)
+From Coq Require Import List NArith ZArith String Bool.
+From Mkdb Require Import Model.Engine Model.Session Spec.TableSpec Spec.HistObs Spec.SessionObs
+  Proofs.RefineRep Proofs.RefineMain Proofs.SessionStore Proofs.SessionProofs Properties.C01.
+Import ListNotations.
+Local Open Scope string_scope.
+
+(* ---- 1. errors change nothing, and the session stays usable ---- *)
+Theorem C17_errors_change_nothing : forall s name s' e,
+  (sess_stmt s (SCreateDatabase name) = (s', SOErr e) -> s' = s /\ forall st, sess_stmt s' st = sess_stmt s st) /\
+  (sess_stmt s (SUse name) = (s', SOErr e) -> s' = s /\ forall st, sess_stmt s' st = sess_stmt s st).
+Proof.
+  intros s name s' e. split; intros H.
+  - apply create_database_err in H. subst. auto.
+  - apply use_err in H. subst. auto.
+Qed.
+Print Assumptions C17_errors_change_nothing.
+
+(* a statement issued with no database selected: error, nothing changes *)
+Theorem C17_no_database_selected : forall s st,
+  cur s = None -> is_session_stmt st = false -> sess_stmt s st = (s, SOErr SENoDB).
+Proof. exact no_database_selected. Qed.
+Print Assumptions C17_no_database_selected.
+
+(* ---- 2. SHOW DATABASES ---- *)
+Theorem C17_show_lists_created : forall evs s os,
+  sess_run init_sess evs = (Ok s, os) ->
+  sess_stmt s SShowDatabase = (s, SOShow (sort_strs (created evs os))) /\
+  map fst (dbs s) = created evs os /\ NoDup (created evs os) /\
+  Forall (fun n => lower n = n) (created evs os).
+Proof. exact show_lists_created. Qed.
+Print Assumptions C17_show_lists_created.
+
+(* ---- 3. frame ---- *)
+Theorem C17_frame : forall s n,
+  (* DDL / DML / SELECT / SHOW / USE: only the selected and the newly selected database *)
+  (forall st, (forall name, st <> SCreateDatabase name) -> cur s <> Some n ->
+              (forall name, st = SUse name -> lower name <> n) ->
+              get_db n (dbs (fst (sess_stmt s st))) = get_db n (dbs s)) /\
+  (* tick: only the selected database *)
+  (forall s1 o, cur s <> Some n -> sess_step s SvTick = (Ok s1, o) -> get_db n (dbs s1) = get_db n (dbs s)) /\
+  (* CREATE DATABASE: no existing database *)
+  (forall name, get_db n (dbs s) <> None ->
+                get_db n (dbs (fst (sess_stmt s (SCreateDatabase name)))) = get_db n (dbs s)).
+Proof.
+  intros s n. split; [intros st; apply frame_stmt|]. split; [intros s1 o; apply frame_tick | intros name; apply frame_create].
+Qed.
+Print Assumptions C17_frame.
+
+(* ---- 4. isolation ---- *)
+Theorem C17_isolation : forall evs s os,
+  sess_hyps init_sess evs = true ->
+  sess_run init_sess evs = (Ok s, os) ->
+  let sp := fst (sess_spec_run [] None evs os) in
+  snd (sess_spec_run [] None evs os) = cur s /\
+  map fst (dbs s) = map fst sp /\
+  forall n d, sp_get n sp = Some d ->
+    d = TableSpec.spec_run [] (stmts_while n None evs os) /\
+    exists y, get_db n (dbs s) = Some y /\
+              Rep (logical (cur s) n y) d /\
+              forall t, is_sys t = false -> table_agrees (logical (cur s) n y) d t.
+Proof. exact isolation. Qed.
+Print Assumptions C17_isolation.
+
+Theorem C17_never_fails : forall evs fin os,
+  sess_hyps init_sess evs = true -> sess_run init_sess evs = (fin, os) -> exists s, fin = Ok s.
+Proof. exact sess_run_total. Qed.
+Print Assumptions C17_never_fails.
+
+(* the two invariants behind 4, per database, in every reachable session state: a non-selected
+   database is closed (cache = data file) *)
+Theorem C17_invariant : forall s, reachable s -> exists sp, SessInv s sp.
+Proof. exact reachable_inv. Qed.
+Print Assumptions C17_invariant.
+
+(* ---- full statement: no hypothesis on the statements ---- *)
+Definition C17_full_statement : Prop :=
+  forall evs s os, sess_run init_sess evs = (Ok s, os) ->
+  forall n d, sp_get n (fst (sess_spec_run [] None evs os)) = Some d ->
+  exists y, get_db n (dbs s) = Some y /\
+            forall t, is_sys t = false -> table_agrees (logical (cur s) n y) d t.
+
+(* ---- 5. non-vacuity ---- *)
+Definition evs_demo : list sevent :=
+  [SvStmt (SInsert "t" [] [[VInt 1]]);                                  (* no database selected *)
+   SvStmt (SCreateDatabase "Shop");
+   SvStmt (SCreateDatabase "hr");
+   SvStmt (SCreateDatabase "SHOP");                                     (* exists: names are lower-cased *)
+   SvStmt (SUse "nosuch");                                              (* failed USE, nothing selected *)
+   SvStmt (SUse "shop");
+   SvStmt (SCreateTable "t" [mkColDef "a" STNumeric; mkColDef "b" (STVarchar 10)]);
+   SvStmt (SInsert "t" [] [[VInt 1; VStr "x"]; [VInt 2; VNull]]);
+   SvStmt (SUse "hr");
+   SvStmt (SCreateTable "t" [mkColDef "k" STBigInt]);                   (* same table name, other database *)
+   SvStmt (SInsert "t" [] [[VInt 10]]);
+   SvStmt (SUse "nosuch");                                              (* failed USE: hr stays selected *)
+   SvStmt (SInsert "t" [] [[VInt 11]]);
+   SvStmt (SUse "HR");                                                  (* re-USE of the current database *)
+   SvTick;
+   SvStmt (SInsert "t" [] [[VInt 12]]);
+   SvStmt (SInsert "nosuch" [] [[VInt 1]]);                             (* failing statement *)
+   SvStmt (SUse "shop");
+   SvStmt (SUpdate "t" [("b", XLit (VStr "y"))] (Some (EPred (XCol (mkCol "" "a")) CEq (XLit (VInt 2)))));
+   SvStmt SShowDatabase;
+   SvRestart false;                                                     (* crash: the UPDATE is only in the log *)
+   SvStmt (SDelete "t" None);                                           (* nothing selected after a restart *)
+   SvStmt (SUse "shop");
+   SvStmt (SInsert "t" [] [[VInt 3; VStr "z"]]);
+   SvRestart true;
+   SvStmt (SUse "hr");
+   SvStmt (SDelete "t" (Some (EPred (XCol (mkCol "" "k")) CEq (XLit (VInt 11)))))].
+
+Example C17_hyps_satisfiable :
+  sess_hyps init_sess evs_demo = true /\
+  match sess_run init_sess evs_demo with
+  | (Ok s, os) =>
+      os = [Some (SOErr SENoDB); Some SOOk; Some SOOk; Some (SOErr SEDBExists); Some (SOErr SEDBNotExist);
+            Some SOOk; Some SOOk; Some SOOk; Some SOOk; Some SOOk; Some SOOk; Some (SOErr SEDBNotExist);
+            Some SOOk; Some SOOk; None; Some SOOk; Some (SOErr (SEStmt ETableNotExist)); Some SOOk;
+            Some SOOk; Some (SOShow ["hr"; "shop"]); None; Some (SOErr SENoDB); Some SOOk; Some SOOk; None;
+            Some SOOk; Some SOOk] /\
+      cur s = Some "hr" /\
+      map (fun ny => (fst ny, obs_table (logical (cur s) (fst ny) (snd ny)) "t")) (dbs s) =
+        [("shop", TRows ["a"; "b"] [(12, [VInt 1; VStr "x"]); (13, [VInt 2; VStr "y"]); (14, [VInt 3; VStr "z"])]);
+         ("hr", TRows ["k"] [(11, [VInt 10]); (13, [VInt 12])])] /\
+      map (fun nd => (fst nd, spec_table (snd nd) "t")) (fst (sess_spec_run [] None evs_demo os)) =
+        [("shop", Some (["a"; "b"], [[VInt 1; VStr "x"]; [VInt 2; VStr "y"]; [VInt 3; VStr "z"]]));
+         ("hr", Some (["k"], [[VInt 10]; [VInt 12]]))] /\
+      map (fun n => List.length (stmts_while n None evs_demo os)) (created evs_demo os) = [4; 5]%nat
+  | _ => False
+  end.
+Proof. vm_compute. repeat split; reflexivity. Qed.
+
+(* the unclean restart of evs_demo is not a no-op: just before it the data file of shop is behind
+   its cache (the UPDATE is in the cache and in the log only) *)
+Example C17_restart_nontrivial :
+  match sess_run init_sess (firstn 20 evs_demo) with
+  | (Ok s, _) => match get_db "shop" (dbs s) with
+                 | Some y => obs_table (disk y) "t" <> obs_table (mem y) "t" /\ List.length (wal y) = 3%nat
+                 | None => False
+                 end
+  | _ => False
+  end.
+Proof. vm_compute. split; [discriminate | reflexivity]. Qed.
+
+(* hypothesis (i) is needed: finding F11a inside one database of a session *)
+Definition evs_F11a : list sevent :=
+  [SvStmt (SCreateDatabase "d"); SvStmt (SUse "d");
+   SvStmt (SCreateTable "t" [mkColDef "a" STNumeric]);
+   SvStmt (SInsert "t" [] [[VInt 1]; [VInt 2147483648]])].
+
+Definition F11a_check : bool :=
+  match sess_run init_sess evs_F11a with
+  | (Ok s, os) =>
+      match sp_get "d" (fst (sess_spec_run [] None evs_F11a os)), get_db "d" (dbs s) with
+      | Some d, Some y =>
+          match st_fetch (logical (cur s) "d" y) "t", spec_table d "t" with
+          | Ok (_ :: _, _), Some (_, []) => true
+          | _, _ => false
+          end
+      | _, _ => false
+      end
+  | _ => false
+  end.
+
+Lemma F11a_check_true : F11a_check = true /\ sess_hyps init_sess evs_F11a = false.
+Proof. vm_compute. split; reflexivity. Qed.
+
+Theorem C17_full_refuted : ~ C17_full_statement.
+Proof.
+  intros H. pose proof (proj1 F11a_check_true) as Hc. unfold F11a_check in Hc.
+  destruct (sess_run init_sess evs_F11a) as [[s| |] os] eqn:E; try discriminate Hc.
+  destruct (sp_get "d" (fst (sess_spec_run [] None evs_F11a os))) as [d|] eqn:Ed; try discriminate Hc.
+  destruct (H evs_F11a s os E "d" d Ed) as (y & Ey & Ht). rewrite Ey in Hc.
+  specialize (Ht "t" eq_refl). unfold table_agrees in Ht.
+  destruct (st_fetch (logical (cur s) "d" y) "t") as [[[|r1 idrows] fs]|e|]; try discriminate Hc.
+  destruct (spec_table d "t") as [[cols [|r rows]]|]; try discriminate Hc.
+  destruct Ht as (_ & X & _). discriminate X.
+Qed.
+Print Assumptions C17_full_refuted.
